@@ -80,7 +80,7 @@ def order_sweep(chk):
 
 def C14(chk):
     order_sweep(chk)
-    apply_l1(chk, ["id", "ff", "ns"], full32=(chk.tier == "thorough"), nontrivial_key="sigs")
+    apply_l1(chk, ["id", "ff", "ns", "al"], full32=(chk.tier == "thorough"), nontrivial_key="sigs")
     if chk.tier == "thorough":
         import selftest
         chk.notes.append("binding self-test: " + selftest.selftest_l1())
@@ -148,7 +148,7 @@ def C04(chk):
     profiles_mc(chk, "context-case", ["l", "mdot", "A", "grk", "GRK", "keraia", "ZWJ", "vir", "deva"], n, profs, ops, insts)
     profiles_mc(chk, "framed", ["A", "FWA", "Eac", "acute", "heb", "hpt", "aid", "d1", "mdot", "l"], 0, profs, ["enforce"], (0,),
                 invariants=["Agree", "NoDrift"], frame=(8, 2, 1, ("a", "eac")) if q else (9, 4, 2, ("a", "eac")))
-    apply_l1(chk, ["wm", "lc1", "lc3", "bidi"], nontrivial_key="runs")
+    apply_l1(chk, ["wm", "lc1", "lc3", "lc4", "bidi", "pp"], nontrivial_key="runs")
     l3_run(chk, "usernames-limits", driver="limits", per_string=2, kinds=["enforce"], profiles=profs, seed_offset=5)
     long_run(chk, profiles=profs, ops=["prepare", "enforce"], max_bytes=5000 if q else 70000)
     l3_run(chk, "usernames-echo", driver="echo", strings=24 if q else 200, profiles=profs, max_len=6, seed_offset=11)
@@ -175,7 +175,7 @@ def C05(chk):
     profiles_mc(chk, "opq-compat", ["a", "FWA", "rom4", "e", "acute", "angst", "emo", "NBSP", "diaer"], n, ["OPQ"], ops, insts)
     profiles_mc(chk, "opq-framed", ["NBSP", "ISP", "e", "acute", "angst", "TAB"], 0, ["OPQ"], ["enforce"], (0,),
                 invariants=["Agree", "OnlySpacesChange", "NoDrift"], frame=(8, 3, 2, ("a", "eac")) if q else (9, 9, 3, ("a", "eac", "han")))
-    apply_l1(chk, ["osp"], nontrivial_key="zs")
+    apply_l1(chk, ["osp", "pp"], nontrivial_key="zs")
     l3_run(chk, "opaque-limits", driver="limits", per_string=2, kinds=["enforce"], profiles=["OPQ"], seed_offset=5)
     long_run(chk, profiles=["OPQ"], ops=ops)
     l3_run(chk, "opaque-echo", driver="echo", strings=24 if q else 200, profiles=["OPQ"], max_len=6, seed_offset=11)
@@ -200,7 +200,7 @@ def C06(chk):
     profiles_mc(chk, "nick-latin1", ["micro", "sup2", "ordm", "a", "SP", "diaer", "two"], n, ["NICK"], ops, insts)
     profiles_mc(chk, "nick-framed", ["SP", "NBSP", "diaer", "rom4", "hcj", "emo"], 0, ["NICK"], ["enforce"], (0,),
                 invariants=["Agree", "FixedPoint", "NoDrift"], frame=(8, 3, 2, ("a", "eac", "SP")) if q else (9, 9, 3, ("a", "eac", "SP")))
-    apply_l1(chk, ["nsp"], nontrivial_key="zs")
+    apply_l1(chk, ["nsp", "lc5", "pp"], nontrivial_key="zs")
     l3_run(chk, "nickname-limits", driver="limits", per_string=2, kinds=["enforce"], profiles=["NICK"], seed_offset=5)
     long_run(chk, profiles=["NICK"], ops=ops)
     l3_run(chk, "nickname-echo", driver="echo", strings=24 if q else 200, profiles=["NICK"], max_len=6, seed_offset=11)
@@ -243,7 +243,7 @@ def C11(chk):
     profiles_mc(chk, "width-prepare", ["a", "FWA", "HWK", "ISP", "rom4", "eac", "FWBANG"], n - 1, ["UCM", "UCP"], ["prepare"], insts)
     profiles_mc(chk, "width-framed", ["FWA", "HWK", "ISP", "han", "cjkp", "emo"], 0, ["UCM"], ["width_mapping_rule"], (0,),
                 invariants=["Agree", "MappingsAgree"], frame=(9, 3, 1, ("a", "han")) if q else (17, 5, 2, ("a", "eac", "han")))
-    apply_l1(chk, ["wm"], nontrivial_key="wm")
+    apply_l1(chk, ["wm", "pp"], nontrivial_key="wm")
     long_run(chk, profiles=["UCM", "UCP"], ops=["width_mapping_rule", "prepare"])
     l3_run(chk, "width-echo", driver="echo", strings=24 if q else 200, profiles=["UCM", "UCP"], max_len=6, seed_offset=11)
     race_run(chk, processes=40 if q else 400, long_processes=1 if q else 10, judge=False)
@@ -320,7 +320,7 @@ def C03(chk):
                {"MaxLen": n - 1 if q else n, "Rules": tla_set(["katakana", "arabic_indic", "ext_arabic_indic", "middle_dot"])}, CTX_INVS, insts)
     generic_mc(chk, "MC_Context", "neighbours", ["keraia", "grk", "GRK", "geresh", "heb", "hpt", "a", "l", "mdot"],
                {"MaxLen": n - 1 if q else n, "Rules": tla_set(["keraia", "hebrew", "middle_dot", "zwj"])}, CTX_INVS, insts)
-    apply_l1(chk, ["reg", "vir", "greek", "hebrew", "kana", "ld", "rd", "md", "aidx", "eaidx", "own"], nontrivial_key="ctx")
+    apply_l1(chk, ["reg", "vir", "greek", "hebrew", "kana", "ld", "rd", "md", "aidx", "eaidx", "own", "al"], nontrivial_key="ctx")
     long_run(chk, profiles=["OPQ"], ops=["prepare"], ctx=True, max_bytes=3000, name="long-ctx")
     l3_run(chk, "context", strings=1200 if q else 8000, per_string=4, kinds=["ctx", "ctx", "ctx", "allows"])
     chk.cov["exhaustive"] = True
@@ -351,7 +351,7 @@ def C02(chk):
                {"MaxLen": n, "Rules": "{}"}, CTX_INVS, insts)
     generic_mc(chk, "MC_StringClass", "user-class-digits", ["aid", "eaid", "a", "mdot", "l", "kmdot", "hira"],
                {"MaxLen": 4 if q else 5, "FreeSyms": lambda ch: "{%d, %d}" % (ch["eaid"], ch["kmdot"])}, sc_invs, (0,))
-    apply_l1(chk, ["reg", "id", "ff", "vir", "greek", "hebrew", "kana", "ld", "rd", "md", "aidx", "eaidx", "own"], nontrivial_key="ctx")
+    apply_l1(chk, ["reg", "id", "ff", "vir", "greek", "hebrew", "kana", "ld", "rd", "md", "aidx", "eaidx", "own", "al", "pp"], nontrivial_key="ctx")
     l3_run(chk, "allows-runs", driver="runs", per_string=2, kinds=["allows", "ctx"], seed_offset=3)
     long_run(chk, profiles=["UCP", "OPQ"], ops=["prepare"], ctx=True, max_bytes=3000, name="long-ctx")
     l3_run(chk, "allows", strings=600 if q else 8000, per_string=2, kinds=["allows"])
